@@ -8,6 +8,7 @@ package cfgutil
 
 //@ func NewCollector
 //@ props C19
+//@ pure
 //@ ensures [fresh] fresh(result)
 //@ ensures [err] result.err == nil
 //@ ensures [cfg] cfg != nil ==> result.config == cfg
